@@ -31,7 +31,7 @@ LEAN = {"module": "Pygom.Props.C15",
         "required": ["Pygom.C15.rows_count", "Pygom.C15.row_zero", "Pygom.C15.row_is_path_state",
                      "Pygom.C15.counts_are_per_transition", "Pygom.C15.rows_differ_by_vmat_counts",
                      "Pygom.C15.exact_counts_counterexample"]}
-BUDGET = {"quick": {"models": 300, "sessions": 120},
+BUDGET = {"quick": {"models": 300, "sessions": 160},
           "thorough": {"models": 4000, "sessions": 1200, "max_steps": 2000, "steps": [40, 150, 600, 1500], "session_steps": [40, 150, 600]}}
 RULE = ("bounded-rate event models (shared generator), integer initial states handed over as int / int32 / float64 ndarray, list or "
         "tuple of ints or floats, exact mode (plus 1 in 5 tau-leap runs: count histogram, one row per time, first row = x0, every row "
@@ -39,7 +39,7 @@ RULE = ("bounded-rate event models (shared generator), integer initial states ha
         "random or integer-valued spacing, given as list, tuple or array of float or int dtype, horizons from half the expected run "
         "length to ten times it (grids extending past extinction, paths without any event); one crafted case puts an event exactly "
         "on a grid point; plus SESSIONS on one instance (3-5 calls: gridded and raw, exact and tau-leap, 1-3 paths, pre_tau / epsilon "
-        "left over, initial values re-assigned in another form or with other values, sibling instance in between, first call "
+        "left over, initial values re-assigned in another form or with other values, parameters changed and restored, a deep copy of the configured instance taking over, sibling instance in between, first call "
         "repeated, last call repeated on a fresh instance, every returned array kept and compared again at the end, the caller's "
         "x0 and grid objects unchanged); a case is non-trivial when some interval holds >= 2 events")
 ASSUMPTIONS = ["no event time coincides with an interior grid point (hypothesis of rows_differ_by_vmat_counts; probability zero for "
